@@ -11,6 +11,8 @@ import Anko.Gen.Cache
 import Anko.Gen.Operators
 import Anko.Gen.ToXFlow
 import Anko.Props.ToXFlowTable
+import Anko.Props.Tie.ToXFlow
+import Anko.Props.Tie.ProvFlow
 
 namespace Anko.C05
 open Anko
@@ -423,6 +425,15 @@ Every leaf statement of toString, toBool / tryToBool, toFloat64 / tryToFloat64, 
 precedenceOfKinds, float64Value, sliceOfArray and the operator dispatcher, with the conditions it stands under, is the one written down in
 Props/ToXFlowTable next to Model/Num and Model/Ops (toInt64V, toFloat64V, numeral parsing of strings, the kind that decides `+`). Any edit of these functions - also a harmless one - breaks this obligation by name; the check then
 searches model and implementation for a failing input (DESIGN.md 13.3). -/
-theorem tower_conversions_are_the_modelled_ones : Gen.ToXFlow.leaves = Tables.toXFlow := by decide +kernel
+theorem tower_conversions_are_the_modelled_ones : Gen.ToXFlow.leaves = Tables.toXFlow := Tie.toXFlow
+
+/-! ### Shared source ties
+
+The code this property is anchored in is also written down, leaf statement by leaf statement, by the tables below (each decided once in
+Props/Tie, `decide +kernel`, against the table regenerated from /repo on this run). A change of that code breaks the tie by name here too, and the check of
+this property then searches for a failing input - so a change that breaks this property through code whose primary table belongs to another
+property is not overlooked. -/
+/-- unary operators, dereference, address-of, unalias, containerOperand, isNil -/
+theorem source_tie_ProvFlow : Gen.ProvFlow.leaves = Tables.provFlow := Tie.provFlow
 
 end Anko.C05
